@@ -78,9 +78,11 @@ int CVodeReInit(void *, realtype t0, N_Vector) {
     M.t_cur = t0; M.last_ret = 0;
     return 0;
 }
-int CVodeSStolerances(void *, realtype, realtype) { return 0; }
+static int g_bad_config = 0;   /* the integrator must be configured with exactly what Init was given */
+static const double VERIF_ATOL = 3e-19, VERIF_RTOL = 7e-6; static const long VERIF_MXSTEPS = 321;
+int CVodeSStolerances(void *, realtype reltol, realtype abstol) { if (reltol != VERIF_RTOL || abstol != VERIF_ATOL) g_bad_config |= 1; return 0; }
 int CVodeSetErrFile(void *, FILE *) { return 0; }
-int CVodeSetMaxNumSteps(void *, long int) { return 0; }
+int CVodeSetMaxNumSteps(void *, long int n) { if (n != VERIF_MXSTEPS) g_bad_config |= 2; return 0; }
 int CVodeSetUserData(void *, void *) { return 0; }
 int CVodeSetLinearSolver(void *, SUNLinearSolver, SUNMatrix) { return 0; }
 int CVodeSetJacFn(void *, CVLsJacFn) { return 0; }
@@ -136,7 +138,8 @@ static bool run_once(double dt, const double y0) {
     for (int g = 0; g < NSYS; g++) { data[g].nH = 1.0; data[g].Tgas = 10.0; }
     double y[NTOT];
     for (int i = 0; i < NTOT; i++) y[i] = y0;
-    naunet.Init(NSYS, 1e-20, 1e-5, 500);
+    g_bad_config = 0;
+    naunet.Init(NSYS, VERIF_ATOL, VERIF_RTOL, VERIF_MXSTEPS);
     int ret = naunet.Solve(y, dt, data);
     // a second interval on the same object, whatever the first one did: with a well-behaved integrator it must
     // simply integrate dt again from the state it is given
@@ -174,6 +177,7 @@ static bool run_once(double dt, const double y0) {
         if (!why && log.find(line) == std::string::npos) { snprintf(buf, sizeof buf, "returned FAIL but the error record lacks the initial state line '%s'", line); why = buf; }
     } else { snprintf(buf, sizeof buf, "Solve returned %d (neither SUCCESS nor FAIL)", ret); why = buf; }
     if (!why && !second_ok) { snprintf(buf, sizeof buf, "a second Solve on the same object (integrator always succeeding) returned %d and integrated %.17g of the requested %.17g", ret2, y2[0] - y0b, dt); why = buf; }
+    if (!why && g_bad_config) { snprintf(buf, sizeof buf, "the integrator was configured with other %s than Init was given", g_bad_config & 1 ? "tolerances" : "step limit"); why = buf; }
     if (!why && M.calls_after_fatal > 0) { snprintf(buf, sizeof buf, "CVode called %d more time(s) after an unrecoverable flag", M.calls_after_fatal); why = buf; }
     if (!why && !M.tout_monotone) { snprintf(buf, sizeof buf, "tout not strictly increasing inside a level"); why = buf; }
     if (!why && M.fatal_seen && ret != NAUNET_FAIL) { snprintf(buf, sizeof buf, "an unrecoverable flag was returned by the integrator but Solve returned %d", ret); why = buf; }
